@@ -1575,13 +1575,15 @@ bool XSValue::getActualNumericValue(const XMLCh*  const content
     }
     else
     {
-        if (XMLString::indexOf(content, chDash) != -1)
+        retVal.f_ulong = strtoull(nptr, &endptr, (int)10);
+
+        // strtoull negates a value with a minus sign:
+        // only zero ("-0") may have one
+        if (XMLString::indexOf(content, chDash) != -1 && retVal.f_ulong != 0)
         {
             status = st_FOCA0002; //invalid lexcial value
             return false;
         }
-
-        retVal.f_ulong = strtoull(nptr, &endptr, (int)10);
     }
 
     // need to check out-of-bounds before checking erange...
